@@ -14,13 +14,13 @@ pub fn write_ack_atomic_read<'a>(
     reads: Stream<u32, P<'a>, Unbounded>,
 ) -> (Stream<u32, P<'a>, Unbounded>, Stream<(u32, u32), P<'a>, Unbounded>) {
     let atomic_write = writes.atomic();
-    let state = atomic_write
+    let sum_state = atomic_write
         .clone()
         .fold(q!(|| 0u32), q!(|s: &mut u32, v: u32| *s += v));
     let acks = atomic_write.end_atomic();
     let responses = sliced! {
         let batch = use::batch(reads, nondet!(/** verif: all batchings enumerated */));
-        let snap = use::atomic(state, nondet!(/** verif: atomic snapshot */));
+        let snap = use::atomic(sum_state, nondet!(/** verif: atomic snapshot */));
         batch.cross_singleton(snap)
     };
     (acks, responses)
@@ -33,13 +33,13 @@ pub fn write_ack_plain_read<'a>(
     writes: Stream<u32, P<'a>, Unbounded>,
     reads: Stream<u32, P<'a>, Unbounded>,
 ) -> (Stream<u32, P<'a>, Unbounded>, Stream<(u32, u32), P<'a>, Unbounded>) {
-    let state = writes
+    let sum_state = writes
         .clone()
         .fold(q!(|| 0u32), q!(|s: &mut u32, v: u32| *s += v));
     let acks = writes;
     let responses = sliced! {
         let batch = use::batch(reads, nondet!(/** verif: all batchings enumerated */));
-        let snap = use::snapshot(state, nondet!(/** verif: all snapshots enumerated */));
+        let snap = use::snapshot(sum_state, nondet!(/** verif: all snapshots enumerated */));
         batch.cross_singleton(snap)
     };
     (acks, responses)
